@@ -138,6 +138,9 @@ struct Cfg {
     readers: Vec<Reader>,
     rounds: usize,
     eq_spin: u32,
+    /// the threads share the one handle by reference instead of holding a clone each (nobody else
+    /// has a handle then, which must not make any operation think it is alone)
+    by_ref: bool,
 }
 
 fn decode(ctl: &[u8]) -> Cfg {
@@ -154,14 +157,16 @@ fn decode(ctl: &[u8]) -> Cfg {
     }
     let rounds = 4 + c.below(12);
     let eq_spin = [0u32, 0, 20, 200, 2000][c.below(5)];
-    Cfg { n, mutator, readers, rounds, eq_spin }
+    let by_ref = c.chance(90);
+    Cfg { n, mutator, readers, rounds, eq_spin, by_ref }
 }
 
 pub fn describe(ctl: &[u8]) -> String {
     let c = decode(ctl);
     format!(
-        "stress: list a = b = [Tr(0), .., Tr({})] with len == capacity; mutator {:?} on a; readers {:?}; {} rounds; element comparison spins {} iterations",
+        "stress: list a = b = [Tr(0), .., Tr({})] with len == capacity; handles {}; mutator {:?} on a; readers {:?}; {} rounds; element comparison spins {} iterations",
         c.n - 1,
+        if c.by_ref { "shared by reference" } else { "cloned per thread" },
         c.mutator,
         c.readers,
         c.rounds,
@@ -236,10 +241,12 @@ pub fn run(fns: &Arc<StressFns>, ctl: &[u8], render: bool) -> Outcome {
         let mut errs: Vec<String> = Vec::new();
         std::thread::scope(|s| {
             let mut hs = Vec::new();
+            let (a_outer, b_outer) = (&a, &b);
             for mi in 0..n_mut {
-                let (a, g, fns) = (a.clone(), g.clone(), fns.clone());
+                let (a_own, g, fns) = (if cfg.by_ref { None } else { Some(a_outer.clone()) }, g.clone(), fns.clone());
                 let m = cfg.mutator;
                 hs.push(s.spawn(move || -> Result<(u128, u128), String> {
+                    let a: &L = a_own.as_ref().unwrap_or(a_outer);
                     let x1 = Val(Tr::new(5000));
                     let x2 = Val(Tr::new(5001));
                     gate(&g, parties);
@@ -276,8 +283,10 @@ pub fn run(fns: &Arc<StressFns>, ctl: &[u8], render: bool) -> Outcome {
                 }));
             }
             for r in cfg.readers.iter().copied() {
-                let (a, b, g, fns) = (a.clone(), b.clone(), g.clone(), fns.clone());
+                let (a_own, b_own, g, fns) = (if cfg.by_ref { None } else { Some(a_outer.clone()) }, if cfg.by_ref { None } else { Some(b_outer.clone()) }, g.clone(), fns.clone());
                 hs.push(s.spawn(move || -> Result<(u128, u128), String> {
+                    let a: &L = a_own.as_ref().unwrap_or(a_outer);
+                    let b: &L = b_own.as_ref().unwrap_or(b_outer);
                     let needle = Val(Tr::new(last_tag));
                     let missing = Val(Tr::new(777_777));
                     gate(&g, parties);
